@@ -190,6 +190,10 @@ fn fault_case(
         }
     }
     let o3 = rerun(dir, b, sc, with_seeds, &format!("{}c", tag), &Faults::default());
+    if o3.idle_hang {
+        out.violation = Some(format!("re-run after {} at write {} did not end: stopped by the watchdog having used hardly any CPU (idle, not slow)", mode.name(), k));
+        return out;
+    }
     if o3.exit == Exit::Timeout {
         out.inconclusive = Some("watchdog (re-run)");
         return out;
